@@ -178,7 +178,10 @@ of HNS rules of one direction with IPv4 addresses, each tier containing a rule t
 packet (the end-of-tier rule), with ANY ports on ANY rules: flattenTiers does not panic, and the
 flattened list with rewritten priorities, evaluated by HNS with any tie-break, gives exactly the
 tier-by-tier verdict `mvH` (first match per tier; a pass continues in the next tier; a pass in the
-last tier is a drop). -/
+last tier is a drop).
+Note on `limit`: Go computes `limit-currentPriority` in uint16 (it wraps when `limit < 1000`), the
+model uses truncated subtraction; the theorem holds for BOTH branches of rewritePriorities, so the
+difference cannot matter, and the only caller passes 65000. -/
 theorem flatten_verdict (d : Bool) (tiers : List (List HRule)) (hne : tiers ≠ [])
     (h : ∀ t ∈ tiers, TierOK d t ∧ Total t) (limit : Nat) (p : Pkt) :
     ∃ l, flattenTiers tiers = some l ∧ ∃ a, mvH p tiers = some a ∧
